@@ -66,6 +66,12 @@ type Machine struct {
 	GuardUndefined     bool
 	StoppedOnUndefined bool
 
+	// OnBusWrite / OnBusRead are called for every access of the CPU to the bus once TapBus was called
+	// (a write before it is performed, a read after it returned).
+	OnBusWrite func(addr uint16, val uint8)
+	OnBusRead  func(addr uint16, val uint8)
+	tapped     bool
+
 	DisplayCleanups int
 	SlowSerial      bool // coroutine mode: the serial writer blocks (yields to the scheduler) before consuming its argument
 	SerialParks     int
@@ -351,6 +357,44 @@ func New(img []byte, missing bool, opt Options) (*Machine, *PanicInfo) {
 	return m, nil
 }
 
+// BusAccess is one access of the CPU to the bus, recorded by the tap.
+type BusAccess struct {
+	N     uint64 // machine cycle in which it happened (1-based: cycle N ends at boundary N)
+	Addr  uint16
+	Val   uint8
+	Write bool
+}
+
+type busTap struct {
+	inner cpu.VerifBus
+	m     *Machine
+}
+
+func (b *busTap) Read(a uint16) byte {
+	v := b.inner.Read(a)
+	if b.m.OnBusRead != nil {
+		b.m.OnBusRead(a, v)
+	}
+	return v
+}
+
+func (b *busTap) Write(a uint16, v byte) {
+	if b.m.OnBusWrite != nil {
+		b.m.OnBusWrite(a, v)
+	}
+	b.inner.Write(a, v)
+}
+
+// TapBus puts a recording tap between the CPU and the memory mapper (hook H4). Only accesses made
+// by the CPU pass through it: the DMA engine and the harness itself use the mapper directly.
+func (m *Machine) TapBus() {
+	if m.tapped {
+		return
+	}
+	m.tapped = true
+	m.CPU.VerifWrapBus(func(inner cpu.VerifBus) cpu.VerifBus { return &busTap{inner: inner, m: m} })
+}
+
 // Ctx returns the simulated context.
 func (m *Machine) Ctx() *SimContext { return m.ctx }
 
@@ -467,6 +511,31 @@ func (m *Machine) Park() {
 	r.SP = 0xfffa
 	m.CPU.VerifSetRegs(r)
 	m.IRQ.Disable()
+}
+
+// ParkAs parks the CPU in one of the states in which it performs no data accesses: 0 = the JR loop of
+// Park, 1 = halted (HALT with nothing enabled: it never wakes), 2 = stopped (STOP; a key event resumes it
+// and the loop stops it again). The frame loop keeps stepping every other unit in all three.
+func (m *Machine) ParkAs(mode int) {
+	m.Park()
+	switch mode {
+	case 1:
+		m.Map.Write(0xffff, 0x00)
+		m.Map.Write(0xfff8, 0x76) // HALT
+		m.Map.Write(0xfff9, 0x18) // JR -3
+		m.Map.Write(0xfffa, 0xfd)
+	case 2:
+		m.Map.Write(0xfff8, 0x10) // STOP
+		m.Map.Write(0xfff9, 0x00)
+		m.Map.Write(0xfffa, 0x18) // JR -4
+		m.Map.Write(0xfffb, 0xfc)
+	default:
+		return
+	}
+	r := m.CPU.VerifGetRegs()
+	r.PC = 0xfff8
+	r.SP = 0xfff6
+	m.CPU.VerifSetRegs(r)
 }
 
 // ---- coroutine mode -----------------------------------------------------------------------
